@@ -11,18 +11,10 @@ shift `hi << B_PER_W`); the header's `m % 8 ≠ 0` implies it because B_PER_W is
 Also proved: the three static reductions of gf2.c, run with the fields gf2Create precomputes, are
 the same word-level computations as the pp_red.c ones (`…_eq_pp`).
 
-NOT proved yet (full statements; the same lemmas — LemmasPpRed.val_pairXor / val_tailXor /
-val_take_xor — apply, the loop has four shifted copies instead of two):
-  theorem_ppRedPentanomial_spec (w a m k l l1) (hw : 0 < w) (ha : Wf w a) (hl : a.length = 2 * wOfB w m)
-      (hk : k < w) (h : 0 < l1 ∧ l1 < l ∧ l < k) (hmk : w ≤ m - k) :
-      val w (ppRedPentanomial w a m k l l1) = Spec.pmod (val w a) (2^m + 2^k + 2^l + 2^l1 + 1)
-      ∧ val w (ppRedPentanomial w a m k l l1) < 2^m ∧ Wf … ∧ length = wOfB w m        (incl. m % w = 0)
-  theorem_ppRedBelt_spec (w a) (hw : w * wOfB w 128 = 128) (ha : Wf w a) (hl : a.length = 2 * wOfB w 128) :
-      val w (ppRedBelt w a) = Spec.pmod (val w a) (2^128 + 2^7 + 2^2 + 2 + 1) ∧ … < 2^128
-  (gf2RedPentanomial follows from gf2RedPentanomial_eq_pp.)
-Model-level evidence for these two (#eval against Spec.pmod): pentanomial exhaustive in (m, k, l, l1)
-for w = 8, 8 ≤ m ≤ 33 incl. m % w = 0 and the all-ones array (degree 2·N·w − 1), samples for
-w = 16, 64; belt for w = 8, 16, 32, 64 — no mismatch.
+The same is PROVED for ppRedPentanomial / gf2RedPentanomial (incl. m % w = 0).
+
+And for ppRedBelt (x^128 + x^7 + x^2 + x + 1) for every word size with 7 < w, w·W_OF_B(128) = 128,
+W_OF_B(128) ≥ 2 (w = 8, 16, 32, 64).  Nothing is left open in this file.
 -/
 import Bee2V.C05.LemmasPpRed
 namespace Bee2V.C05
@@ -129,5 +121,54 @@ theorem gf2RedTrinomial0_spec (w : Nat) (a : List Nat) (m k : Nat) (hw : 0 < w) 
     rw [gf2RedTrinomial0_eq_pp w a m k hbk]
   rw [e]
   exact ppRedTrinomial_ok a m k hw ha hl hmw hk hmk
+
+/-! ## correctness of the pentanomial reductions -/
+
+/-- ppRedPentanomial(a, {m, k, l, l1}) for every array of 2·W_OF_B(m) words (any contents), every
+    w > 0, including m % w = 0: the first W_OF_B(m) words are `a mod (x^m + x^k + x^l + x^l1 + 1)`,
+    reduced.  Preconditions of the header: k > l > l1 > 0, k < B_PER_W, m − k ≥ B_PER_W. -/
+theorem ppRedPentanomial_spec (w : Nat) (a : List Nat) (m k l l1 : Nat) (hw : 0 < w) (ha : Wf w a)
+    (hlen : a.length = 2 * wOfB w m) (h1 : 0 < l1) (h2 : l1 < l) (h3 : l < k) (hk : k < w)
+    (hmk : w ≤ m - k) :
+    val w (ppRedPentanomial w a m k l l1)
+      = Spec.pmod (val w a) (2 ^ m + 2 ^ k + 2 ^ l + 2 ^ l1 + 1)
+    ∧ val w (ppRedPentanomial w a m k l l1) < 2 ^ m
+    ∧ Wf w (ppRedPentanomial w a m k l l1) ∧ (ppRedPentanomial w a m k l l1).length = wOfB w m :=
+  ppRedPentanomial_ok a m k l l1 hw ha hlen h1 h2 h3 hk hmk
+
+-- hypotheses satisfiable, also with m % w = 0 (m = 16, w = 8) and an all-ones array (degree 31):
+example := ppRedPentanomial_spec 8 [255, 255, 255, 255] 16 5 2 1 (by decide) (by decide) (by decide)
+  (by decide) (by decide) (by decide) (by decide) (by decide)
+example : (ppRedPentanomial 8 [255, 255, 255, 255] 16 5 2 1).length = 2
+    ∧ val 8 (ppRedPentanomial 8 [255, 255, 255, 255] 16 5 2 1) < 2 ^ 16 := by decide
+
+/-- gf2RedPentanomial with the fields of gf2Create -/
+theorem gf2RedPentanomial_spec (w : Nat) (a : List Nat) (m k l l1 : Nat) (hw : 0 < w) (ha : Wf w a)
+    (hlen : a.length = 2 * wOfB w m) (h1 : 0 < l1) (h2 : l1 < l) (h3 : l < k) (hk : k < w)
+    (hmk : w ≤ m - k) :
+    val w (gf2RedPentanomial w a (wOfB w m) (Gf2Pentanom.create w m k l l1))
+      = Spec.pmod (val w a) (2 ^ m + 2 ^ k + 2 ^ l + 2 ^ l1 + 1)
+    ∧ val w (gf2RedPentanomial w a (wOfB w m) (Gf2Pentanom.create w m k l l1)) < 2 ^ m
+    ∧ Wf w (gf2RedPentanomial w a (wOfB w m) (Gf2Pentanom.create w m k l l1))
+    ∧ (gf2RedPentanomial w a (wOfB w m) (Gf2Pentanom.create w m k l l1)).length = wOfB w m := by
+  rw [(gf2RedPentanomial_eq_pp w a m k l l1).2]
+  exact ppRedPentanomial_ok a m k l l1 hw ha hlen h1 h2 h3 hk hmk
+
+/-! ## ppRedBelt -/
+
+/-- ppRedBelt(a) for every array of 2·W_OF_B(128) words (any contents): the first W_OF_B(128) words
+    are `a mod (x^128 + x^7 + x^2 + x + 1)`.  Word sizes: `mw * B_PER_W == 128` (the C ASSERT),
+    B_PER_W > 7 (the shifts by B_PER_W − 7), at least two words (w = 8, 16, 32, 64). -/
+theorem ppRedBelt_spec (w : Nat) (a : List Nat) (h7 : 7 < w) (h2 : 2 ≤ wOfB w 128)
+    (hw : w * wOfB w 128 = 128) (ha : Wf w a) (hlen : a.length = 2 * wOfB w 128) :
+    val w (ppRedBelt w a) = Spec.pmod (val w a) (2 ^ 128 + 2 ^ 7 + 2 ^ 2 + 2 ^ 1 + 1)
+    ∧ val w (ppRedBelt w a) < 2 ^ 128
+    ∧ Wf w (ppRedBelt w a) ∧ (ppRedBelt w a).length = wOfB w 128 :=
+  ppRedBelt_ok a h7 h2 hw ha hlen
+
+-- the hypotheses hold for B_PER_W = 64 and an all-ones array (degree 255):
+example := ppRedBelt_spec 64 (List.replicate 4 (2 ^ 64 - 1)) (by decide) (by decide) (by decide)
+  (by decide) (by decide)
+example : (ppRedBelt 64 (List.replicate 4 (2 ^ 64 - 1))).length = 2 := by decide
 
 end Bee2V.C05
